@@ -116,10 +116,19 @@ C01_SlotsOwnReservation ==
        => WorkloadSlots(n) + Cardinality(NewGroupsOf(i, n)) <= N(n).pods
 C01_SlotsAllReservations == \A n \in Nodes : BoundNow(n) # {} => SlotsUsed(n) <= N(n).pods
 C01_Gpu   == \A n \in Nodes : BoundNow(n) # {} => DevicesUsed(n) <= N(n).gpus
+\* MIG instances and other extended resources (scenario fields node.ext / pod.ext: resource name -> count):
+\* per node and resource name, the instances requested by occupants and binds never exceed the allocatable ones
+HasExt == \A n \in Nodes : "ext" \in DOMAIN N(n)
+ExtNames == UNION {DOMAIN N(n).ext : n \in Nodes} \cup UNION {DOMAIN P(p).ext : p \in Pods}
+ExtReq(p, r) == IF r \in DOMAIN P(p).ext THEN P(p).ext[r] ELSE 0
+ExtCap(n, r) == IF r \in DOMAIN N(n).ext THEN N(n).ext[r] ELSE 0
+ExtUsed(n, r) == Sum(Occupants(n), LAMBDA p : ExtReq(p, r)) + Sum(BoundNow(n), LAMBDA i : ExtReq(D[i].p, r))
+C01_Ext == HasExt => \A n \in Nodes : BoundNow(n) # {} => \A r \in ExtNames : ExtUsed(n, r) <= ExtCap(n, r)
 \* the next snapshot produced by applying the scheduler's decisions is again within capacity
 C01_NextSnapshot ==
   (cyc > 1 /\ D = <<>>) => \A n \in Nodes : /\ CpuUsed(n) <= N(n).cpu /\ MemUsed(n) <= N(n).mem
                                             /\ WorkloadSlots(n) <= N(n).pods /\ DevicesUsed(n) <= N(n).gpus
+                                            /\ HasExt => \A r \in ExtNames : ExtUsed(n, r) <= ExtCap(n, r)
 \* a bind only goes to an existing node
 C01_BindTarget == \A i \in Dec : BindAny(i) => D[i].n \in Nodes
 
